@@ -1,5 +1,5 @@
 """Engines E1/E2/E3, attribution, verdict, evidence (DESIGN.md sections 5 and 6)."""
-import json, os, re, shutil, subprocess, sys, time, hashlib
+import atexit, json, os, re, shutil, subprocess, sys, time, hashlib
 
 from . import families as F
 
@@ -31,18 +31,21 @@ def build_harness():
     copied to a private build directory so that concurrent checks do not share go.mod."""
     global VH
     t0 = time.time()
-    src = HARNESS
-    if REPO != '/repo':
-        tag = hashlib.sha1(REPO.encode()).hexdigest()[:10]
-        src = os.path.join(WORK, 'harness-' + tag)
-        shutil.rmtree(src, ignore_errors=True)
-        shutil.copytree(HARNESS, src, ignore=shutil.ignore_patterns('go.mod', 'go.sum'))
-        VH = os.path.join(WORK, 'bin', 'vh-' + tag)
+    # every run builds in a private copy of the harness sources and into a binary of its own, so that checks running at
+    # the same time (several properties, several trees) never share go.mod or overwrite a binary another one executes
+    tag = '%s-%d' % (hashlib.sha1(REPO.encode()).hexdigest()[:10], os.getpid())
+    src = os.path.join(WORK, 'harness-' + tag)
+    shutil.rmtree(src, ignore_errors=True)
+    os.makedirs(WORK, exist_ok=True)
+    shutil.copytree(HARNESS, src, ignore=shutil.ignore_patterns('go.mod', 'go.sum'))
+    VH = os.path.join(WORK, 'bin', 'vh-' + tag)
     os.makedirs(os.path.dirname(VH), exist_ok=True)
-    subprocess.run(['sh', os.path.join(src, 'mkmod.sh')], check=True, env=dict(GOENV, REPO=REPO))
-    r = subprocess.run(['go', 'build', '-tags', 'verif', '-o', VH, './cmd/vh'], cwd=src, env=GOENV,
-                       stdout=subprocess.PIPE, stderr=subprocess.STDOUT, text=True)
-    if REPO != '/repo':
+    atexit.register(lambda path=VH: os.path.exists(path) and os.remove(path))
+    try:
+        subprocess.run(['sh', os.path.join(src, 'mkmod.sh')], check=True, env=dict(GOENV, REPO=REPO))
+        r = subprocess.run(['go', 'build', '-tags', 'verif', '-o', VH, './cmd/vh'], cwd=src, env=GOENV,
+                           stdout=subprocess.PIPE, stderr=subprocess.STDOUT, text=True)
+    finally:
         shutil.rmtree(src, ignore_errors=True)
     if r.returncode != 0:
         raise Undecided('harness does not build against the repository:\n' + r.stdout[-4000:])
